@@ -147,7 +147,7 @@ class MatVal:
         if a.numel() != b.numel():
             return False
         # tolerance of the less precise of the two operands (values are compared as reals: DESIGN 4.5)
-        tol = max({torch.float16: 4e-3, torch.bfloat16: 3e-2, torch.float64: 1e-9}.get(x.dtype, 1e-5) for x in (a, b))
+        tol = max({torch.float16: 1e-2, torch.bfloat16: 6e-2, torch.float64: 1e-9}.get(x.dtype, 1e-5) for x in (a, b))
         a, b = a.reshape(-1).double(), b.reshape(-1).double()
         if a.numel() == 0:
             return True
